@@ -352,6 +352,19 @@ Proof.
   pose proof (save_ttls_nonlazy r lazy_ttl L) as E. rewrite TT in E. cbn in E. subst ct. lia.
 Qed.
 
+(** an ordinary answer is not served once its smallest TTL has run out *)
+Lemma not_served_after_min_ttl secs r lazy_ttl now e now1 now2 :
+  save r lazy_ttl now = Some e -> lazy_ttl <= 0 -> m_rcode r = 0%N -> has_answer r = true ->
+  now1 <= now2 -> now + Z.of_N (min_ttl r) * second <= now2 ->
+  get_resp_with secs false now1 now2 (Some e) = None.
+Proof.
+  intros S L R HA T X.
+  destruct (get_resp_with secs false now1 now2 (Some e)) eqn:G; [|reflexivity]. exfalso.
+  assert (N : get_resp_with secs false now1 now2 (Some e) <> None) by congruence.
+  apply (stored_then_served secs r lazy_ttl now e now1 now2 S L T) in N.
+  apply lifetimes in S as (_ & _ & _ & _ & _ & _ & _ & H). destruct (H R HA) as (H1 & _). lia.
+Qed.
+
 (** * Lazy refresh: one call in flight per key *)
 Open Scope N_scope.
 
